@@ -672,3 +672,16 @@ package server
 //@   call Get requires [lookup-under-the-cursor-key] unbox(arg1, "string") == str(cursorKey)
 //@   call getLatestCursorOffset requires [read-under-the-cursor-key] arg2 == cursorKey
 //@   ensures [last-stored] st == nil ==> off == ghost.curStored[ghost.curKey]
+// a server that becomes leader of a cursors partition starts with an empty cache (its entries may predate stores
+// accepted by another leader)
+//@ ghost var purged bool
+//@ func (*cursorManager).BecomePartitionLeader serves C11
+//@   requires c != nil
+//@   ghost after call Purge: ghost.curCached := reset()
+//@   ensures [cache-emptied] forall k string :: !ghost.curCached[k]
+//@ func (*partition).becomeLeader serves C11
+//@   requires p != nil
+//@   assumes p.srv != nil && p.srv.cursors != nil && (forall k string :: (k in p.isr) ==> p.isr[k] != nil)
+//@   ghost at entry: ghost.purged := false
+//@   ghost after call BecomePartitionLeader: ghost.purged := true
+//@   ensures [cursor-cache-purged] result == nil && old(p.Partition.Stream) == cursorsStream ==> ghost.purged
